@@ -181,18 +181,98 @@ Section DeadEnd.
     pose proof (inv_u _ _ _ _ _ _ _ I) as IU.
     destruct (apply_gate_ok names W HW Hnames s _ _ g IU (Hgates g Hg)) as (la & Hla & _ & Hae).
     assert (Ka : In KApply (search_actions gl wl)) by (destruct gl, wl; simpl; auto).
-    rewrite (Hnil KApply Ka) in Hla. inversion Hla; subst la. destruct (Hae eq_refl) as [Nr _].
+    pose proof (Hnil KApply Ka) as Ha0. cbn [next_state_primitive] in Ha0. rewrite Ha0 in Hla. inversion Hla; subst la. destruct (Hae eq_refl) as [Nr _].
     split.
     - destruct gl; [|reflexivity]. exfalso.
       assert (Kg : In KGate (search_actions true wl)) by (destruct wl; simpl; auto).
       destruct (gate_cut_ok names W HW Hnames s _ _ g IU (Hgates g Hg)) as (lg & Hlg & _ & Hge).
-      rewrite (Hnil KGate Kg) in Hlg. inversion Hlg; subst lg. destruct (Hge eq_refl) as [En|Er].
+      pose proof (Hnil KGate Kg) as Hg0. cbn [next_state_primitive] in Hg0. rewrite Hg0 in Hlg. inversion Hlg; subst lg. destruct (Hge eq_refl) as [En|Er].
       + now apply (Hgam g Hg).
       + contradiction.
     - intros ->.
-      assert (Kb : In KBoth (search_actions gl true)) by (destruct gl; simpl; auto).
+      assert (Kb : In KBoth (search_actions gl true)) by (destruct gl; simpl; tauto).
       destruct (both_cut_ok names W HW Hnames s _ _ g IU (Hgates g Hg)) as (lb & Hlb & _ & Hbe).
-      rewrite (Hnil KBoth Kb) in Hlb. inversion Hlb; subst lb. destruct (Hbe eq_refl) as [Hroom|H2]; [|lia].
+      pose proof (Hnil KBoth Kb) as Hb0. cbn [next_state_primitive] in Hb0. rewrite Hb0 in Hlb. inversion Hlb; subst lb. destruct (Hbe eq_refl) as [Hroom|H2]; [|lia].
       pose proof (inv_len_u _ _ _ _ _ _ _ I). pose proof (inv_nw _ _ _ _ _ _ _ I). lia.
   Qed.
 End DeadEnd.
+
+(* ---------------- with W = 1 and no gate cuts, nothing is feasible once there is a two-qubit gate ---------------- *)
+Lemma seg_edges_app c1 : forall c2 cur,
+  seg_edges (c1 ++ c2) cur = seg_edges c1 cur ++ seg_edges c2 (seg_cur c1 cur).
+Proof.
+  induction c1 as [|i r IH]; intros c2 cur; [reflexivity|]. cbn [app seg_edges seg_cur].
+  destruct (iop i); try apply IH.
+  - destruct (iqs i) as [|q0 rest]; [apply IH|]. rewrite <- app_assoc. f_equal. apply IH.
+  - destruct (iqs i) as [|q rest]; apply IH.
+Qed.
+
+Lemma edge_in_render t p : forall c k0 cur j i g0 a b,
+  nth_error c j = Some i -> iop i = Gate g0 -> iqs i = [a; b] -> p (k0 + j) <> KGateCut ->
+  exists x y, In ((a, x), (b, y)) (seg_edges (render_from t p k0 c) cur).
+Proof.
+  induction c as [|i0 r IH]; intros k0 cur j i g0 a b Hj Hop Hq Hp; [destruct j; discriminate|].
+  cbn [render_from]. rewrite seg_edges_app.
+  destruct j as [|j].
+  - simpl in Hj. inversion Hj; subst i0. rewrite Nat.add_0_r in Hp.
+    destruct (p k0); try congruence; cbn [render_instr seg_edges cut_wire_instr iop iqs]; rewrite Hop, Hq; cbn [map app nth];
+      eexists; eexists; first [left; reflexivity | apply in_or_app; left; left; reflexivity].
+  - simpl in Hj. destruct (IH (S k0) (seg_cur (render_instr t (p k0) i0) cur) j i g0 a b Hj Hop Hq) as (x & y & Hin).
+    + replace (S k0 + j) with (k0 + S j) by lia. exact Hp.
+    + exists x, y. apply in_or_app. now right.
+Qed.
+
+Theorem fails_only_if_infeasible fuel i :
+  find_cuts_full fuel i = Ref ->
+  let t := fi_gtab i in let c := fi_circ i in
+  circ_wf c -> circ_plain c ->
+  (forall x, In x c -> is_multi x = true -> kappa_of t x <> None) ->
+  fi_ncl i = 0 -> 1 <= fi_W i -> settings_ok i = true ->
+  (fi_gate_lo i = true \/ fi_wire_lo i = true) ->
+  forall p, plan_permitted t (fi_gate_lo i) (fi_wire_lo i) c p -> ~ feasible (fi_W i) (render t p c).
+Proof.
+  intros H t c WFc Hplain Hsup Hncl HW Hset Hkinds p Hperm Hfeas.
+  pose proof (find_cuts_ref_greedy fuel i H WFc HW Hset Hncl) as Hgr. fold t c in Hgr.
+  set (names := names_of (fi_nq i) t c) in *. set (gates := gates_of (fi_nq i) t c) in *.
+  set (acts := search_actions (fi_gate_lo i) (fi_wire_lo i)) in *.
+  set (fa := {| fa_gates := gates; fa_actions := acts; fa_W := fi_W i |}) in *.
+  destruct (gates_of_circ (fi_nq i) t c) as (NDn & Hincg & Hgspec & Hgall). fold names gates in NDn, Hincg, Hgspec, Hgall.
+  pose proof (gates_wf (fi_nq i) t c WFc) as Hgwf. fold names gates in Hgwf.
+  assert (Hgam : forall g, In g gates -> g_gamma g <> None).
+  { intros g Hg. destruct (Hgspec g Hg) as (x & Hx & Hm & _ & Eg & _). rewrite Eg.
+    apply (Hsup x); [eapply nth_error_In; exact Hx|exact Hm]. }
+  unfold greedy_cut_optimization in Hgr. cbn [fa_gates fa] in Hgr. fold fa in Hgr.
+  destruct (greedy_none names (fi_W i) HW NDn gates Hgwf fa eq_refl eq_refl acts eq_refl
+              (length names + max_wire_cuts_circuit gates) _ _
+              (ex_intro _ [] (Inv_init names (fi_W i) HW NDn gates Hgwf acts (max_wire_cuts_circuit gates))) Hgr)
+    as (s' & pl & I & Hgoal & Hdead).
+  rewrite (max_wire_cuts_two names gates Hgwf) in I.
+  destruct (dead_end names (fi_W i) HW NDn gates Hgwf Hgam (fi_gate_lo i) (fi_wire_lo i) _ s' pl I eq_refl Hgoal Hdead) as [Hgl Hwl].
+  destruct Hkinds as [Hk|Hk]; [congruence|]. specialize (Hwl Hk).
+  (* the gate at which the greedy pass stopped *)
+  unfold goal_state in Hgoal. cbn [fa fa_gates] in Hgoal. apply Nat.leb_gt in Hgoal.
+  destruct (nth_error gates (level s')) as [g|] eqn:Eg; [|apply nth_error_None in Eg; lia].
+  assert (Hg : In g gates) by (eapply nth_error_In; eauto).
+  destruct (Hgspec g Hg) as (x & Hx & Hm & Hq & _ & _).
+  destruct (Hgwf g Hg) as (GL & GN & G1 & G2).
+  assert (Hop : exists g0, iop x = Gate g0).
+  { pose proof (Hplain x (nth_error_In _ _ Hx)) as Hpl. unfold is_multi in Hm. apply andb_prop in Hm as [Hb _].
+    unfold plain_instr in Hpl. unfold is_barrier in Hb. destruct (iop x); try discriminate; eauto. }
+  destruct Hop as [g0 Hop].
+  assert (Hq2 : iqs x = [nm names (q1_of g); nm names (q2_of g)]).
+  { rewrite Hq. unfold q1_of, q2_of. destruct (g_qubits g) as [|a [|b [|? ?]]]; simpl in GL; try lia. reflexivity. }
+  assert (Hne : nm names (q1_of g) <> nm names (q2_of g)).
+  { intros E. apply GN. unfold nm in E. eapply NoDup_nth in E; eauto. }
+  assert (Hpk : p (0 + g_inst g) <> KGateCut).
+  { simpl. intros E. destruct (Hperm (g_inst g)) as (x' & _ & _ & _ & Hk'); [congruence|].
+    rewrite E in Hk'. destruct Hk' as [Hk' _]. congruence. }
+  destruct (edge_in_render t p c 0 cur0 (g_inst g) x g0 _ _ Hx Hop Hq2 Hpk) as (u & v & Hin).
+  specialize (Hfeas [(nm names (q1_of g), u); (nm names (q2_of g), v)]).
+  assert (L : 2 <= fi_W i).
+  { apply Hfeas.
+    - constructor; [intros [E|[]]; inversion E; congruence|constructor; [intros []|constructor]].
+    - assert (C : conn (segment_graph (render t p c)) (nm names (q1_of g), u) (nm names (q2_of g), v))
+        by (apply rst_step; exact Hin).
+      intros a b [<-|[<-|[]]] [<-|[<-|[]]]; try apply rst_refl; [exact C|apply rst_sym; exact C]. }
+  lia.
+Qed.
